@@ -16,6 +16,12 @@ Definition getBit (d : N) (v : Z) : bool := N.testbit d (idx v).
 Definition clearBit (d : N) (v : Z) : N := N.clearbit d (idx v).
 Definition isEmpty (d : N) : bool := N.eqb d 0.
 
+(** specification-level reading of a domain word: value [v] is a member of [d] *)
+Definition dmem (d : N) (v : Z) : Prop :=
+  offs <= v < offs + numBits /\ N.testbit d (idx v) = true.
+(** a word of the 64-bit array element *)
+Definition small (d : N) : Prop := (d < 2 ^ 64)%N.
+
 (** count trailing zeros of a positive = BitUtil::firstBit on a non-zero word *)
 Fixpoint ctz (p : positive) : N :=
   match p with
